@@ -252,7 +252,13 @@ func raceRegion(fr *FuncResult, o *Obligation, base string, perOblS int, sem cha
 	o.Solver, o.Secs = solver, s
 	switch stOut {
 	case "unsat":
-		stIn, _, s2, m2 := race(fr, o, "inside", base, perOblS, sem, "")
+		// inside the listed region the clause is expected to fail: a short budget is
+		// enough to notice that it has started to hold (finding no longer reproduces)
+		inS := perOblS
+		if inS > 10 {
+			inS = 10
+		}
+		stIn, _, s2, m2 := race(fr, o, "inside", base, inS, sem, "")
 		o.Secs += s2
 		if stIn == "unsat" {
 			o.Status = "discharged"
